@@ -22,7 +22,8 @@
 (*                                                                         *)
 (* Known findings are part of the model as named CAUSES: where an          *)
 (* isolation / integrity invariant can fail, the failing action classifies *)
-(* why (rename window, stale task write) or says "unexplained".  TLC checks*)
+(* why (rename window, stale task write, stale session) or "unexplained".  *)
+(* TLC checks                                                              *)
 (* that within the bound nothing unexplained ever happens.                 *)
 (***************************************************************************)
 EXTENDS ServerShapes, TLC
@@ -38,10 +39,13 @@ CONSTANTS Principals,      \* e.g. {"A", "B"}
           TempNames,       \* account names the service generates for anonymous adds ({} in the exhaustive configurations)
           GenPNames,       \* problem names the service generates for unnamed adds
           FilterOnOwner,   \* FALSE: get_adf_problem filters on the name only (mutation self-test)
-          FixedF8          \* TRUE: the continuation deregisters a panicked task (repaired), FALSE: as shipped
+          FixedF8,         \* TRUE: the continuation deregisters a panicked task (repaired), FALSE: as shipped
+          Person(_)        \* principal (= one cookie jar, one device) -> the person using it; ownership is by person
 
 AllCodes == Codes \cup BadCodes \cup BoomCodes
-Pw(p) == "pw-" \o p                    \* each principal knows only its own password (principals are strings in the exhaustive configurations)
+Pw(p) == "pw-" \o Person(p)            \* each person knows only its own password (principals are strings in the exhaustive configurations)
+IdPerson(p) == p                       \* cfg: Person <- IdPerson  (every jar is its own person)
+DevPerson(p) == IF p = "A2" THEN "A" ELSE p   \* cfg: Person <- DevPerson  ("A2" is the second device of person "A")
 NoUser == "-"
 
 VARIABLES users,     \* account name -> [pw, owner]
@@ -51,9 +55,10 @@ VARIABLES users,     \* account name -> [pw, owner]
           req,       \* principal -> request record or [op |-> "idle"]
           tasks,     \* set of background tasks
           nextId, nreq,
-          foreignRead, foreignEffect, wrongResult   \* ghost: set of causes observed so far
+          foreignRead, foreignEffect, wrongResult,  \* ghost: set of causes observed so far
+          stale      \* ghost: principals whose cookie names an account that another request has vacated (deleted / renamed) since
 
-vars == <<users, probs, running, cookie, req, tasks, nextId, nreq, foreignRead, foreignEffect, wrongResult>>
+vars == <<users, probs, running, cookie, req, tasks, nextId, nreq, foreignRead, foreignEffect, wrongResult, stale>>
 
 Idle == [op |-> "idle", status |-> 0]
 NeedsLogin == {"logout", "info", "update", "delacct", "solve", "get", "list", "delprob"}
@@ -61,7 +66,7 @@ NoRes == [s \in Strategies |-> "None"]
 
 Init == /\ users = [n \in {} |-> 0] /\ probs = {} /\ running = {} /\ cookie = [p \in Principals |-> NoUser]
         /\ req = [p \in Principals |-> Idle] /\ tasks = {} /\ nextId = 1 /\ nreq = 0
-        /\ foreignRead = {} /\ foreignEffect = {} /\ wrongResult = {}
+        /\ foreignRead = {} /\ foreignEffect = {} /\ wrongResult = {} /\ stale = {}
 
 Exists(n) == n \in DOMAIN users
 Find(pn, u) == { d \in probs : d.name = pn /\ d.user = u }
@@ -73,14 +78,25 @@ Fin(p, st) == req' = [req EXCEPT ![p] = [op |-> "idle", status |-> st]]
 RenameInFlight(n) == \E q \in Principals : req[q].op = "update" /\ req[q].pc = 3 /\ req[q].me = n
 \* a document carries the cause that once put it into foreign hands / gave it foreign content (taint): later reads and
 \* effects on it are consequences of that first failure, not new ones
-Cause(p, d) == IF d.owner = p THEN {} ELSE IF d.taint # "" THEN {d.taint}
+\* the session of p outlived its account: the cookie was issued for a name that has been vacated since (and may belong to
+\* someone else now), or it is a fresh cookie for an account that was taken over that way (taint on the account)
+Via(p) == IF p \in stale THEN "stale-session"
+          ELSE IF req[p].op # "idle" /\ req[p].me \in DOMAIN users /\ users[req[p].me].taint # "" THEN users[req[p].me].taint ELSE ""
+Cause(p, d) == IF d.owner = Person(p) THEN {} ELSE IF d.taint # "" THEN {d.taint}
+               ELSE IF Via(p) # "" THEN {Via(p)}
                ELSE IF RenameInFlight(d.user) THEN {"rename-window"} ELSE {"unexplained"}
+\* an account deletion is two commands: a document inserted for n between them survives the account
+DeleteInFlight(n) == \E q \in Principals : req[q].op = "delacct" /\ req[q].pc = 2 /\ req[q].me = n
+\* acting on an account of another person
+AcctCause(p, n) == IF users[n].owner = Person(p) THEN {} ELSE IF Via(p) # "" THEN {Via(p)} ELSE {"unexplained"}
+\* everybody else who still holds a cookie for the vacated name n
+Stranded(p, n) == { q \in Principals \ {p} : cookie[q] = n }
 ReadCause(p, d) == Cause(p, d)
 
 (******************************* requests **********************************)
 Start(p, r) == /\ req[p].op = "idle" /\ nreq < MaxReq /\ nreq' = nreq + 1
                /\ req' = [req EXCEPT ![p] = r @@ [pc |-> 1, me |-> cookie[p]]]
-               /\ UNCHANGED <<users, probs, running, cookie, tasks, nextId, foreignRead, foreignEffect, wrongResult>>
+               /\ UNCHANGED <<users, probs, running, cookie, tasks, nextId, foreignRead, foreignEffect, wrongResult, stale>>
 
 NewRequest(p) ==
   \/ \E n \in Accounts : Start(p, [op |-> "register", n |-> n, pw |-> Pw(p)])
@@ -108,7 +124,7 @@ Step(p) ==
             /\ IF Exists(r.n) THEN Fin(p, 409) ELSE req' = [req EXCEPT ![p].pc = 2]
             /\ Unch(<<users, probs, running, cookie, tasks, nextId, foreignRead, foreignEffect, wrongResult>>)
        [] r.op = "register" /\ r.pc = 2 ->                       \* insert user (unique index)
-            /\ users' = IF Exists(r.n) THEN users ELSE (r.n :> [pw |-> r.pw, owner |-> p]) @@ users
+            /\ users' = IF Exists(r.n) THEN users ELSE (r.n :> [pw |-> r.pw, owner |-> Person(p), taint |-> ""]) @@ users
             /\ Fin(p, IF Exists(r.n) THEN 500 ELSE 200)
             /\ Unch(<<probs, running, cookie, tasks, nextId, foreignRead, foreignEffect, wrongResult>>)
        [] r.op = "login" ->                                      \* find user, verify password (temporary accounts cannot log in)
@@ -130,16 +146,19 @@ Step(p) ==
             /\ Unch(<<users, probs, running, cookie, tasks, nextId, foreignRead, foreignEffect, wrongResult>>)
        [] r.op = "update" /\ r.pc = 2 ->                         \* replace_one users {username: me}
             /\ IF Exists(r.me) /\ (r.n = r.me \/ ~Exists(r.n))
-               THEN /\ users' = (r.n :> [pw |-> r.pw, owner |-> users[r.me].owner]) @@ [m \in DOMAIN users \ {r.me} |-> users[m]]
-                    /\ foreignEffect' = foreignEffect \cup (IF users[r.me].owner # p THEN {"unexplained"} ELSE {})
+               THEN LET ac == AcctCause(p, r.me)
+                        why == IF ac = {} THEN "" ELSE CHOOSE c \in ac : TRUE IN
+                    /\ users' = (r.n :> [pw |-> r.pw, owner |-> users[r.me].owner, taint |-> IF users[r.me].taint = "" THEN why ELSE users[r.me].taint])
+                                 @@ [m \in DOMAIN users \ {r.me} |-> users[m]]
+                    /\ foreignEffect' = foreignEffect \cup ac
                     /\ cookie' = [cookie EXCEPT ![p] = r.n]
-                    /\ req' = [req EXCEPT ![p].pc = 3]
+                    /\ req' = [req EXCEPT ![p] = [@ EXCEPT !.pc = 3] @@ [hv |-> IF Via(p) # "" THEN Via(p) ELSE "rename-window"]]
                ELSE /\ Fin(p, 500) /\ Unch(<<users, cookie, foreignEffect>>)
             /\ Unch(<<probs, running, tasks, nextId, foreignRead, wrongResult>>)
        [] r.op = "update" /\ r.pc = 3 ->                         \* update_many problems me -> n
-            /\ probs' = { IF d.user = r.me THEN [d EXCEPT !.user = r.n, !.taint = IF d.owner # p /\ @ = "" THEN "rename-window" ELSE @] ELSE d : d \in probs }
+            /\ probs' = { IF d.user = r.me THEN [d EXCEPT !.user = r.n, !.taint = IF d.owner # Person(p) /\ @ = "" THEN r.hv ELSE @] ELSE d : d \in probs }
             \* documents of another person created under the vacated name meanwhile are taken along
-            /\ foreignEffect' = foreignEffect \cup (IF \E d \in probs : d.user = r.me /\ d.owner # p THEN {"rename-window"} ELSE {})
+            /\ foreignEffect' = foreignEffect \cup { (IF d.taint # "" THEN d.taint ELSE r.hv) : d \in { x \in probs : x.user = r.me /\ x.owner # Person(p) } }
             /\ Fin(p, 200)
             /\ Unch(<<users, running, cookie, tasks, nextId, foreignRead, wrongResult>>)
        [] r.op = "delacct" /\ r.pc = 1 ->                        \* delete_many problems
@@ -149,14 +168,14 @@ Step(p) ==
             /\ Unch(<<users, running, cookie, tasks, nextId, foreignRead, wrongResult>>)
        [] r.op = "delacct" /\ r.pc = 2 ->                        \* delete_one user
             /\ users' = [m \in DOMAIN users \ {r.me} |-> users[m]]
-            /\ foreignEffect' = foreignEffect \cup (IF Exists(r.me) /\ users[r.me].owner # p THEN {"unexplained"} ELSE {})
+            /\ foreignEffect' = foreignEffect \cup (IF Exists(r.me) THEN AcctCause(p, r.me) ELSE {})
             /\ cookie' = IF Exists(r.me) THEN [cookie EXCEPT ![p] = NoUser] ELSE cookie
             /\ Fin(p, IF Exists(r.me) THEN 200 ELSE 500)
             /\ Unch(<<probs, running, tasks, nextId, foreignRead, wrongResult>>)
        [] r.op = "add" /\ r.me = NoUser ->                       \* anonymous: find a free generated name, insert a temporary user, log it in
             /\ IF TempNames \ DOMAIN users = {} THEN Fin(p, 500) /\ Unch(<<users, cookie>>)
                ELSE LET t == CHOOSE x \in TempNames \ DOMAIN users : TRUE IN
-                    /\ users' = (t :> [pw |-> "TEMP", owner |-> p]) @@ users
+                    /\ users' = (t :> [pw |-> "TEMP", owner |-> Person(p), taint |-> ""]) @@ users
                     /\ cookie' = [cookie EXCEPT ![p] = t]
                     /\ req' = [req EXCEPT ![p].me = t]
             /\ Unch(<<probs, running, tasks, nextId, foreignRead, foreignEffect, wrongResult>>)
@@ -167,9 +186,10 @@ Step(p) ==
                ELSE IF Find(r.pn, r.me) # {} THEN Fin(p, 409) ELSE req' = [req EXCEPT ![p].pc = 2]
             /\ Unch(<<users, probs, running, cookie, tasks, nextId, foreignRead, foreignEffect, wrongResult>>)
        [] r.op = "add" /\ r.pc = 2 ->                            \* insert problem, spawn the parse task
-            /\ probs' = probs \cup {[id |-> nextId, name |-> r.pn, user |-> r.me, code |-> r.code, adfOf |-> "None", res |-> NoRes, owner |-> p, taint |-> ""]}
+            /\ probs' = probs \cup {[id |-> nextId, name |-> r.pn, user |-> r.me, code |-> r.code, adfOf |-> "None", res |-> NoRes, owner |-> Person(p),
+                                 taint |-> IF Via(p) # "" THEN Via(p) ELSE IF DeleteInFlight(r.me) THEN "delete-window" ELSE ""]}
             /\ tasks' = tasks \cup {[kind |-> "Parse", name |-> r.pn, user |-> r.me, code |-> r.code, s |-> "Parse", pc |-> 1,
-                                     owner |-> p, doc |-> nextId, out |-> "None", via |-> ""]}
+                                     owner |-> Person(p), doc |-> nextId, out |-> "None", via |-> ""]}
             /\ nextId' = nextId + 1
             /\ Fin(p, 200)
             /\ Unch(<<users, running, cookie, foreignRead, foreignEffect, wrongResult>>)
@@ -186,7 +206,7 @@ Step(p) ==
             /\ IF r.solved \/ [user |-> r.me, name |-> r.pn, task |-> r.s] \in running
                THEN Unch(<<tasks>>) /\ Fin(p, 409)
                ELSE /\ tasks' = tasks \cup {[kind |-> "Solve", name |-> r.pn, user |-> r.me, code |-> r.snap, s |-> r.s, pc |-> 1,
-                                             owner |-> p, doc |-> r.doc, out |-> "None", via |-> r.rc]}
+                                             owner |-> Person(p), doc |-> r.doc, out |-> "None", via |-> r.rc]}
                     /\ Fin(p, 200)
             /\ Unch(<<users, probs, running, cookie, nextId, foreignRead, foreignEffect, wrongResult>>)
        [] r.op = "get" ->                                        \* find_one {name, username}
@@ -206,6 +226,10 @@ Step(p) ==
                     /\ foreignEffect' = foreignEffect \cup Cause(p, d)
                     /\ Fin(p, 200)
             /\ Unch(<<users, running, cookie, tasks, nextId, foreignRead, wrongResult>>)
+  \* ghost: whose session has just been stranded (the account its cookie names was vacated by p), whose cookie was re-issued
+  /\ stale' = (stale \ ({ q \in Principals : cookie'[q] # cookie[q] }
+                         \cup (IF r.op = "login" /\ req'[p].status = 200 THEN {p} ELSE {})))
+              \cup { q \in Principals \ {p} : cookie[q] # NoUser /\ cookie[q] \in DOMAIN users /\ cookie[q] \notin DOMAIN users' }
 
 (***************************** background tasks *****************************)
 TaskStep(t) ==
@@ -214,13 +238,13 @@ TaskStep(t) ==
      CASE t.pc = 1 ->                                            \* running.insert
             /\ running' = running \cup {ri}
             /\ tasks' = (tasks \ {t}) \cup {[t EXCEPT !.pc = 2]}
-            /\ Unch(<<users, probs, cookie, req, nextId, foreignRead, foreignEffect, wrongResult>>)
+            /\ Unch(<<users, probs, cookie, req, nextId, foreignRead, foreignEffect, wrongResult, stale>>)
        [] t.pc = 2 ->                                            \* compute; a panic skips the deregistration
             /\ LET out == IF t.code \in BadCodes \cup BoomCodes THEN "Error" ELSE t.code
                    panicked == t.code \in BoomCodes IN
                /\ running' = IF panicked THEN running ELSE running \ {ri}
                /\ tasks' = (tasks \ {t}) \cup {[t EXCEPT !.pc = 3, !.out = out]}
-            /\ Unch(<<users, probs, cookie, req, nextId, foreignRead, foreignEffect, wrongResult>>)
+            /\ Unch(<<users, probs, cookie, req, nextId, foreignRead, foreignEffect, wrongResult, stale>>)
        [] t.pc = 3 ->                                            \* continuation: [deregister;] update_one {name, username}
             /\ running' = IF FixedF8 THEN running \ {ri} ELSE running
             /\ LET hit == Find(t.name, t.user) IN
@@ -237,7 +261,7 @@ TaskStep(t) ==
                                                               ELSE IF t.via # "" THEN {t.via}
                                                               ELSE IF d.taint # "" THEN {d.taint} ELSE {"unexplained"} : d \in hit }
             /\ tasks' = tasks \ {t}
-            /\ Unch(<<users, cookie, req, nextId, foreignRead>>)
+            /\ Unch(<<users, cookie, req, nextId, foreignRead, stale>>)
 
 Next == \/ \E p \in Principals : NewRequest(p) \/ Step(p)
         \/ \E t \in tasks : TaskStep(t)
@@ -257,10 +281,20 @@ ErrorNotEmpty == \A d \in probs : d.code \in BadCodes \cup BoomCodes =>
 \* C16: when no task is left nothing is reported as running (needs the repaired continuation)
 EndedNotRunning == (FixedF8 /\ tasks = {}) => running = {}
 \* C17: accounts are unique and only their owner ever holds their cookie - apart from the rename window
-CookieOwn == \A p \in Principals : cookie[p] # NoUser /\ Exists(cookie[p]) => users[cookie[p]].owner = p
+CookieOwn == \A p \in Principals : cookie[p] # NoUser /\ Exists(cookie[p]) => users[cookie[p]].owner = Person(p)
 \* without any race nothing at all goes wrong: strict versions, expected to FAIL (they document the findings)
 StrictIsolation == foreignRead = {} /\ foreignEffect = {}
 StrictResults == wrongResult = {}
+\* a session that outlived its account reaches into whoever owns the name now: expected to FAIL with two devices (finding F12)
+NoStaleSessionAccess == "stale-session" \notin (foreignRead \cup foreignEffect)
+\* bound for the three-jar configuration: the second device only logs in and then reads / deletes; requests run one at a time
+\* except for one overlap (the rename window needs two in flight)
+DevBound == /\ Cardinality({ p \in Principals : req[p].op # "idle" }) <= 2
+            /\ req["A2"].op \in {"idle", "login", "get", "list", "delprob", "add", "update", "delacct"}
+            /\ req["B"].op \in {"idle", "register", "login", "add", "get", "list"}
+DevBoundNarrow == /\ DevBound
+                  /\ req["A2"].op \in {"idle", "login", "get", "list", "delprob", "add"}
+                  /\ req["B"].op \in {"idle", "register", "login", "add", "get"}
 \* as shipped (FixedF8 = FALSE) a panicked task stays in running forever: expected to FAIL
 EndedNotRunningShipped == tasks = {} => running = {}
 =============================================================================
